@@ -114,8 +114,6 @@ def check_redraw(rep, tmp):
         setattr(target, attr, value)
         if attr in ('shape',):
             target.draw_as_spider = True
-        if attr == 'draw_as_spider':
-            target.shape, target.color = 'circle', 'blue'
         for kind, kw in (('matplotlib', dict(path=os.path.join(tmp, 'r2.png'))), ('tikz', dict(path=os.path.join(tmp, 'r2.tikz'), to_tikz=True))):
             got = common.outcome(lambda: d.draw(show=False, **kw))
             if got[0] != 'ok':
